@@ -68,7 +68,7 @@ var props = map[string]Prop{
 			{Name: "mutants", Test: "TestC08Mutants", Shards: [2]int{4, 16}, Checks: [2]int{6000, 100000}, SeedOffset: 1, Timeout: [2]time.Duration{5 * min, 40 * min}},
 			{Name: "fuzz", Fuzz: "FuzzC08Accept", Shards: [2]int{0, 1}, FuzzTime: [2]time.Duration{0, 4 * min}},
 		},
-		Rule: "soups: every sequence of <= 6 tokens over an 8-symbol alphabet and <= 4 over a 14-symbol one (thorough: <= 6 over 14 symbols) spliced into eight expression/operator contexts, each visited once (an accepted soup counts as non-trivial); mutants: rapid-generated grammar programs (all operators, lets, nested joins, hostile names) printed in a random layout and corrupted by 1-3 token-level edits (delete, insert incl. error lexemes, duplicate, transpose, truncate, replace, append) or byte-level splices of hostile constants; thorough adds a coverage-guided native fuzz campaign seeded with the goldens. Oracle, whenever Parse returns nil error: Scan holds no error token, and the token sequence re-printed from the tree through exported fields equals Scan's (kind, value) sequence except for a comma directly before the ')' closing a call, a comma directly before summarize's `by`, and empty statements. Non-trivial = an accepted mutant (Parse succeeded on a corrupted program) or an input that uses an allowed absence; distinct = distinct sources.",
+		Rule: "soups: every sequence of <= 6 tokens over an 8-symbol alphabet and <= 4 over a 15-symbol one (thorough: <= 6 over 15 symbols) spliced into eight expression/operator contexts, each visited once (an accepted soup counts as non-trivial); mutants: rapid-generated grammar programs (all operators, lets, nested joins, hostile names) printed in a random layout and corrupted by 1-3 token-level edits (delete, insert incl. error lexemes, duplicate, transpose, truncate, replace, append) or byte-level splices of hostile constants; thorough adds a coverage-guided native fuzz campaign seeded with the goldens. Oracle, whenever Parse returns nil error: Scan holds no error token, and the token sequence re-printed from the tree through exported fields equals Scan's (kind, value) sequence except for a comma directly before the ')' closing a call, a comma directly before summarize's `by`, and empty statements. Non-trivial = an accepted mutant (Parse succeeded on a corrupted program) or an input that uses an allowed absence; distinct = distinct sources.",
 		Assumptions: []string{"the re-printer (harness/astx/reprint.go) prints optional parts iff their span is valid or their node is non-nil; keyword synonyms are accepted as sets"},
 	},
 	"C10": {
@@ -78,7 +78,7 @@ var props = map[string]Prop{
 			{Name: "soups", Test: "TestC10Soups", Shards: [2]int{4, 16}, Timeout: [2]time.Duration{5 * min, 40 * min}},
 			{Name: "fuzz", Fuzz: "FuzzC10Positions", Shards: [2]int{0, 1}, FuzzTime: [2]time.Duration{0, 3 * min}},
 		},
-		Rule: "programs: rapid-generated grammar programs (all operators and optional parts, lets, nested joins, hostile names) in two random layouts each (multi-line, tabs, comments, non-ASCII); corrupt: token- and byte-level corruptions of such programs; soups: every sequence of <= 4 (thorough 5) tokens over a 14-symbol alphabet in eight contexts; thorough adds native fuzzing. Oracle, success half (every input that parses, including accepted mutants): each recorded span is non-empty, inside the source, starts and ends on Scan token boundaries and its text re-scans to exactly the lexeme it claims (identifier with that name, literal with that value, that operator, keyword, bracket; two-token spans for `sort by` and `nulls first/last`); required spans are valid; all leaf spans are pairwise disjoint and together cover every token except commas, dots and semicolons exactly once; every node's Span() equals the reflective union of all spans below it, contains its parts, and parts are ordered left to right. Failure half: every span reachable in the partial tree and every Span() result is invalid or inside [0,len]; Span() never panics; every line:column prefix of Parse's and Compile's error text is the line/column of some offset of the source (tab stops of 8). Non-trivial = success: layout with newline/tab/comment/non-ASCII and a render, top, join-kind or sort-flag operator; failure: failed parse with a partial tree (soups: any failed parse); distinct = program shape x layout class, or distinct source.",
+		Rule: "programs: rapid-generated grammar programs (all operators and optional parts, lets, nested joins, hostile names) in two random layouts each (multi-line, tabs, comments, non-ASCII); corrupt: token- and byte-level corruptions of such programs; soups: every sequence of <= 4 (thorough 5) tokens over a 15-symbol alphabet in eight contexts; thorough adds native fuzzing. Oracle, success half (every input that parses, including accepted mutants): each recorded span is non-empty, inside the source, starts and ends on Scan token boundaries and its text re-scans to exactly the lexeme it claims (identifier with that name, literal with that value, that operator, keyword, bracket; two-token spans for `sort by` and `nulls first/last`); required spans are valid; all leaf spans are pairwise disjoint and together cover every token except commas, dots and semicolons exactly once; every node's Span() equals the reflective union of all spans below it, contains its parts, and parts are ordered left to right. Failure half: every span reachable in the partial tree and every Span() result is invalid or inside [0,len]; Span() never panics; every line:column prefix of Parse's and Compile's error text is the line/column of some offset of the source (tab stops of 8). Non-trivial = success: layout with newline/tab/comment/non-ASCII and a render, top, join-kind or sort-flag operator; failure: failed parse with a partial tree (soups: any failed parse); distinct = program shape x layout class, or distinct source.",
 		Assumptions: []string{
 			"exported AST fields are declared in source order (used for the 'precedes its right siblings' law)",
 			"a span field's meaning follows from its name and node type (table in c10_test.go); a new span field fails the check as 'no expectation' rather than passing silently",
@@ -90,7 +90,7 @@ var props = map[string]Prop{
 			{Name: "soups", Test: "TestC12Soups", Shards: [2]int{2, 16}, SeedOffset: 1, Timeout: [2]time.Duration{10 * min, 60 * min}},
 			{Name: "fuzz", Fuzz: "FuzzC12Total", Shards: [2]int{0, 1}, FuzzTime: [2]time.Duration{0, 5 * min}},
 		},
-		Rule: "random: rapid-generated inputs <= 4 KiB in six classes (random bytes, token soups, grammar programs, corrupted programs, nesting templates of brackets/calls/signs/in-lists scaled to the size cap, error cascades) x optional parameter maps with arbitrary names and snippets; soups: every sequence of <= 3 (thorough 5) tokens over a 14-symbol alphabet in eight contexts; thorough adds native fuzzing over (source, parameter). Oracle: a worker subprocess runs Scan, SplitStatements, Parse, Walk over every statement of a successful parse, Compile without and with the parameter map; a recovered panic, a worker death, or 20 CPU-seconds burnt on one case (read from /proc/<pid>/stat; slowest legitimate 4 KiB input measured at 3.2 s) is a violation. Non-trivial = the input has a bracket or a join, or an error token, or compiles; distinct = distinct inputs.",
+		Rule: "random: rapid-generated inputs <= 4 KiB in six classes (random bytes, token soups, grammar programs, corrupted programs, nesting templates of brackets/calls/signs/in-lists scaled to the size cap, error cascades) x optional parameter maps with arbitrary names and snippets; soups: every sequence of <= 3 (thorough 5) tokens over a 15-symbol alphabet in eight contexts; thorough adds native fuzzing over (source, parameter). Oracle: a worker subprocess runs Scan, SplitStatements, Parse, Walk over every statement of a successful parse, Compile without and with the parameter map; a recovered panic, a worker death, or 20 CPU-seconds burnt on one case (read from /proc/<pid>/stat; slowest legitimate 4 KiB input measured at 3.2 s) is a violation. Non-trivial = the input has a bracket or a join, or an error token, or compiles; distinct = distinct inputs.",
 		Assumptions: []string{
 			"a call that burns 20 CPU-seconds on <= 4 KiB does not terminate 'within seconds'; a slower-but-finite path just under the budget passes",
 			"wall-clock overrun without CPU consumption is inconclusive (exit 2), never a violation",
